@@ -190,11 +190,11 @@ static std::string step(const std::vector<std::string>& wfull) {
   return "bad-op";
 }
 
-// get_result() leaks the two arrays allocated in mark_moving_gadget_coercer when its transferred-weight check throws.
-// The throw itself is what the oracle reports (known finding C16 union-result-throws); LeakSanitizer is told not to turn
-// the same defect into a second, unspecific `leak` outcome.  VH_NO_LSAN_SUPP=1 switches the suppression off.
+// On the tree the check was first built on, get_result() leaked the two arrays allocated in mark_moving_gadget_coercer
+// when its transferred-weight check threw (repaired by dc2ac23).  Nothing is suppressed by default any more;
+// VH_LSAN_SUPP=1 restores the old suppression for experiments on such a tree.
 extern "C" const char* __lsan_default_suppressions() {
-  return getenv("VH_NO_LSAN_SUPP") ? "" : "leak:mark_moving_gadget_coercer\n";
+  return getenv("VH_LSAN_SUPP") ? "leak:mark_moving_gadget_coercer\n" : "";
 }
 
 int main() {
